@@ -58,10 +58,10 @@ def queries(tier):
     for opc, nm in ((20, 'ADD'), (21, 'SUB'), (25, 'LT'), (26, 'LE'), (27, 'EQN')):
         q(nm, opc, 'fixnum', 'fixnum', arith=True)
     # division: free dividend, divisor from the D-const set (a free 62-bit divisor does not decide: R7)
-    divisors = [0, 1, -1, 2, -2, 3, 10, -7, (1 << 61) - 1, -(1 << 61)] if tier != 'quick' else [0, 1, -1, 2, 10, -7, -(1 << 61)]
+    divisors = [0, 1, -1, 2, -2, 3, 10, -7, (1 << 62) - 1, -(1 << 62)] if tier != 'quick' else [0, 1, -1, 2, 10, -7, -(1 << 62)]
     for opc, nm in ((23, 'QUOTIENT'), (24, 'REMAINDER')):
         for d in divisors:
-            dv = '(%dL)' % d if d > -(1 << 61) else '(-%dL-1)' % ((1 << 61) - 1)
+            dv = '(%dL)' % d if d > -(1 << 62) else '(-%dL-1)' % ((1 << 62) - 1)
             qs.append(Query(name='%s[fixnum,divisor=%d]' % (nm, d), harness='C01_vm.c', units=UNITS, unit_defs=UD,
                             defs={'OPC': opc, 'V1': K['fixnum'], 'V2': K['fixc'], 'V3': 0, 'FIXC': dv}, unwind=8,
                             unwindset={'wide_of.0': 6}, remove_bodies=EXC + ARITH, cap=cap, backends=['cadical', 'minisat', 'kissat'],
